@@ -91,6 +91,9 @@ def well_formed(op):
                      'replace_one': {'filter', 'repl'}, 'delete_one': {'filter'}, 'delete_many': {'filter'}
                      }.get(r['kind'], {'?'}) <= set(r) for r in op['reqs']):
             return False
+    if op['op'] == 'find' and (op.get('via', 'kwargs') not in ('kwargs', 'chain', 'index')
+                               or (op.get('via') == 'index' and op.get('limit') != 0)):
+        return False
     if op['op'] == 'find' and op.get('proj') is not None and not isinstance(op['proj'], (dict, list)):
         return False
     for k in ('filter', 'update', 'repl', 'doc'):
